@@ -40,6 +40,10 @@ m = dict(
              kind_free_text="seeded model of the sync.Pool contract with drop/miss/gc-clear faults"),
         dict(name="medium", path="sim/wirex", serves_properties=[p for p in sorted(PROPS) if "medium" in PROPS[p]["engine"]],
              kind_free_text="faulty byte store: truncation, bit flips, inflated lengths, poisoned tails placed relative to the writer's boundary log"),
+        dict(name="envsim", path="sim/c16, sim/inject/fastmarshal", serves_properties=[p for p in sorted(PROPS) if "envsim" in PROPS[p]["engine"]],
+             kind_free_text="the generator's real run() inside a testing/synctest bubble (positioned fake clock) with drawn working directory, environment and GOMAXPROCS, plus the built binary with drawn stdin chunking"),
+        dict(name="iosim", path="sim/c20, sim/inject/protodump", serves_properties=[p for p in sorted(PROPS) if "iosim" in PROPS[p]["engine"]],
+             kind_free_text="simulated io.Reader (short reads, zero-length reads, error after n bytes) in front of protodump's dump routine; stdin as file / pipe / -file at process level"),
     ],
     checks=checks,
     not_applicable=[dict(property_id=k, reason=v) for k, v in sorted(NOT_APPLICABLE.items()) if k not in PROPS],
